@@ -228,6 +228,24 @@ def run_shard(sh):
                     continue
                 n_ops = s0.step
                 sh.count('yield_points_ops', n_ops)
+                # a few samples of every strategy first, so that every strategy is exercised
+                # in every scenario even when the machine is slow
+                for _ in range(3):
+                    k1, k2 = sorted(rng.sample(range(1, n_ops + 2), 2))
+                    run_schedule(sh, w, tok, program,
+                                 {'kind': 'preempt', 'at': {k1: rng.randrange(T), k2: rng.randrange(T)},
+                                  'first': rng.randrange(T), 'grain': 'ops'}, 'pair', rebuild_probe=False)
+                    sh.count('pair_runs')
+                    run_schedule(sh, w, tok, program, {'kind': 'pct', 'd': rng.randint(1, 3), 'n': n_ops * 4,
+                                                       'seed': rng.randrange(10 ** 9)}, 'pct', rebuild_probe=False)
+                    sh.count('pct_runs')
+                    run_schedule(sh, w, tok, program, {'kind': 'random', 'p': rng.choice([0.01, 0.03, 0.1]),
+                                                       'seed': rng.randrange(10 ** 9)}, 'random', rebuild_probe=False)
+                    sh.count('random_runs')
+                    run_schedule(sh, w, tok, program,
+                                 {'kind': 'preempt', 'at': {rng.randint(1, n_ops * 4): rng.randrange(T)},
+                                  'first': rng.randrange(T)}, 'single-line', rebuild_probe=False)
+                    sh.count('line_preemption_runs')
                 # ---- all single pre-emptions at every lock operation and file-system call
                 #      of the library (x other thread x start thread)
                 complete = True
